@@ -36,7 +36,8 @@ LITS = [0, 1, 2, 3, 5, 7, -1, -2, F(1, 2), F(3, 8), F(5, 4), F(1, 10), F(3, 10),
 RMODES = ['RNE', 'RNA', 'RTP', 'RTN', 'RTZ', 'RAZ', 'RTO', 'RTE']
 
 
-def small_ctx(r, allow_real=False) -> CtxSpec:
+def basic_ctx(r, allow_real=False) -> CtxSpec:
+    """MPFloat / MPSFloat / IEEE only (what the provisional instance NumInst.v supports)."""
     k = r.random()
     if allow_real and k < 0.08:
         return CtxSpec('REAL')
@@ -49,14 +50,57 @@ def small_ctx(r, allow_real=False) -> CtxSpec:
     return CtxSpec('IEEE', es=es, nbits=es + r.randint(2, 5), rm=rm, ov=('SATURATE' if r.random() < 0.15 else 'OVERFLOW'))
 
 
+def small_ctx(r, allow_real=False, safe=False) -> CtxSpec:
+    """A small rounding context of any supported family.  safe=True: only contexts in which the
+    integers 0..3 are representable and x + 1 is exact for x <= 2 (plain loop counters terminate)."""
+    k = r.random()
+    if allow_real and k < 0.07:
+        return CtxSpec('REAL')
+    rm = r.choice(RMODES) if r.random() < 0.6 else 'RNE'
+    ovf = 'SATURATE' if r.random() < 0.25 else 'OVERFLOW'
+    if k < 0.3:
+        return CtxSpec('MPFloat', p=r.randint(2, 6), rm=rm)
+    if k < 0.42:
+        return CtxSpec('MPSFloat', p=r.randint(2, 5), emin=r.randint(-4, 1), rm=rm)
+    if k < 0.54:
+        es = r.randint(2, 4)
+        return CtxSpec('IEEE', es=es, nbits=es + r.randint(2, 5), rm=rm, ov=ovf)
+    if k < 0.64:
+        es = r.randint(3, 4) if safe else r.randint(2, 4)
+        nk = r.choice(['IEEE_754', 'MAX_VAL', 'NEG_ZERO', 'NONE'])
+        return CtxSpec('EFloat', es=es, nbits=es + r.randint(2, 4), enable_inf=(r.random() < 0.5), nk=nk,
+                       eoffset=(0 if safe else r.randint(-1, 1)), rm=rm, ov=ovf)
+    if k < 0.72:
+        p = r.randint(2, 4)
+        mc = r.randint(2 ** (p - 1), 2 ** p - 1)
+        mexp = r.randint(3 - p + 1, 4) if safe else r.randint(-1, 4)
+        return CtxSpec('MPBFloat', p=p, emin=r.randint(-3, 0), mexp=mexp, mc=mc, rm=rm, ov=ovf)
+    if k < 0.8:
+        return CtxSpec('MPFixed', nmin=(r.randint(-5, -1) if safe else r.randint(-5, 1)), rm=rm)
+    ov = r.choice(['WRAP', 'SATURATE'])
+    if k < 0.92:
+        signed = r.random() < 0.6
+        scale = r.randint(-3, 0) if safe else r.randint(-3, 1)
+        lo = (3 - scale) if safe else 2       # enough integer bits for 0..3 (+ sign)
+        return CtxSpec('Fixed', signed=signed, scale=scale, nbits=r.randint(lo, lo + 3), rm=rm, ov=ov)
+    scale = r.randint(-3, 0) if safe else r.randint(-3, 1)
+    lo = (3 - scale) if safe else 2
+    return CtxSpec('SMFixed', scale=scale, nbits=r.randint(lo, lo + 3), rm=rm, ov=ov)
+
+
 class ProgGen:
     def __init__(self, rng, malformed=False,
                  ops2=('add', 'sub', 'mul', 'div'), ops1=('neg', 'fabs', 'round', 'floor', 'ceil', 'trunc', 'roundint'),
-                 use_fma=True, use_copysign=True):
+                 use_fma=True, use_copysign=True, rare_ops2=(), rare_ops1=(), families='basic'):
         self.r = rng
         self.malformed = malformed
         self.bad_done = False
         self.ops2, self.ops1 = list(ops2), list(ops1)
+        # operations only the MPFR engine serves (NotImplementedError under REAL / with a Fraction operand): used sparingly
+        self.rare_ops2, self.rare_ops1 = list(rare_ops2), list(rare_ops1)
+        self.families = families      # 'basic': MPFloat/MPSFloat/IEEE only; 'all': every family of small_ctx
+        # safe: every context of the program keeps small loop counters exact; otherwise counters are incremented under REAL
+        self.safe = (rng.random() < 0.5) if families == 'all' else True
         self.use_fma, self.use_copysign = use_fma, use_copysign
         self.counter = 0
         self.helpers = []          # (Func, kind, nparams)
@@ -78,8 +122,13 @@ class ProgGen:
     def vars_of(self, scope, pred):
         return [x for x, t in scope.items() if pred(t)]
 
+    def pick_ctx(self, allow_real=False):
+        if self.families == 'all':
+            return small_ctx(self.r, allow_real=allow_real, safe=self.safe)
+        return basic_ctx(self.r, allow_real=allow_real)
+
     def ctx_const(self):
-        spec = small_ctx(self.r, allow_real=True)
+        spec = self.pick_ctx(allow_real=True)
         if spec.kind == 'REAL':
             return Node('ctxval', 'fp.REAL', spec)
         for name, s in self.ctxconsts.items():
@@ -218,10 +267,10 @@ class ProgGen:
             return self.leaf_R(scope)
         c = r.random()
         if c < 0.42:
-            o = r.choice(self.ops2)
+            o = r.choice(self.rare_ops2) if (self.rare_ops2 and r.random() < 0.12) else r.choice(self.ops2)
             return Node('op2', o, self.expr_R(scope, d - 1), self.expr_R(scope, d - 1))
         if c < 0.52:
-            o = r.choice(self.ops1)
+            o = r.choice(self.rare_ops1) if (self.rare_ops1 and r.random() < 0.15) else r.choice(self.ops1)
             a = self.expr_R(scope, d - 1)
             if o == 'neg' and a.k == 'num':
                 o = 'fabs'
@@ -320,13 +369,30 @@ class ProgGen:
                                  Node('op2', 'add', Node('op2', 'mul', v, lit(2)), lit(r.choice([1, 3])))])
             return lit(r.randint(2, 7))
         k = r.random()
+        if self.families == 'all' and k < 0.3:
+            # fixed-point constructors; in a `safe` program they keep 0..3 exact
+            ov = r.choice(['WRAP', 'SATURATE'])
+            scale = r.randint(-3, 0) if self.safe else r.randint(-3, 1)
+            if computed:
+                v = V(r.choice(iv))
+                nbits = Node('op2', 'add', v, lit(3 - scale + r.randint(0, 2)))      # n >= 1
+                sc = lit(scale)
+            else:
+                nbits, sc = lit((3 - scale if self.safe else 2) + r.randint(0, 3)), lit(scale)
+            self.features.add('with-fixed-ctor')
+            if k < 0.1:
+                return Node('ctor', 'MPFixed', rm, None, [lit(r.randint(-5, -1) if self.safe else r.randint(-5, 1))])
+            if k < 0.2:
+                return Node('ctor', r.choice(['FixedS', 'FixedS', 'FixedU']), rm, ov, [sc, nbits])
+            return Node('ctor', 'SMFixed', rm, ov, [sc, nbits])
         if k < 0.55:
             return Node('ctor', 'MPFloat', rm, None, [prec()])
         if k < 0.8:
             return Node('ctor', 'MPSFloat', rm, None, [prec(), lit(r.randint(-4, 1))])
         es = r.randint(2, 4)
         nb = Node('op2', 'add', lit(es), prec()) if computed else lit(es + r.randint(2, 6))
-        return Node('ctor', 'IEEE', rm, 'OVERFLOW', [lit(es), nb])
+        ov = r.choice(['OVERFLOW', 'OVERFLOW', 'SATURATE']) if self.families == 'all' else 'OVERFLOW'
+        return Node('ctor', 'IEEE', rm, ov, [lit(es), nb])
 
     # ------------------------------------------------------------ statements
     def ret_value(self, scope):
@@ -431,7 +497,12 @@ class ProgGen:
             inner = dict(scope)
             inner[i] = 'I'
             body = self.stmts(inner, d - 1, r.randint(1, 3), True, protect + (i,))
-            body.append(Node('assign', PV(i), Node('op2', 'add', V(i), lit(1))))
+            incr = Node('assign', PV(i), Node('op2', 'add', V(i), lit(1)))
+            if self.safe or self.families != 'all':
+                body.append(incr)
+            else:
+                # some context of this program may not represent the counter: increment it exactly
+                body.append(Node('with', None, Node('ctxval', 'fp.REAL', CtxSpec('REAL')), [incr]))
             self.features.add('while')
             return [Node('assign', PV(i), lit(0)), Node('while', Node('cmp', ['<'], [V(i), lit(bound)]), body)]
         if c < 0.82 and d > 0:
@@ -501,7 +572,7 @@ class ProgGen:
     def helper(self, kind):
         r = self.r
         name = self.fresh({'pure': 'hp', 'mut': 'hm', 'id': 'hi', 'with': 'hw', 'early': 'he'}[kind])
-        ctx = small_ctx(r) if r.random() < 0.45 else None
+        ctx = self.pick_ctx() if r.random() < 0.45 else None
         if ctx is not None:
             self.features.add('callee-declared-ctx')
         else:
@@ -544,7 +615,7 @@ class ProgGen:
         nx, ny = r.randint(2, 4), None
         ny = nx if r.random() < 0.7 else r.randint(2, 4)
         scope = {'x': 'R', 'y': 'R', 'n': 'I', 'xs': ('L', nx), 'ys': ('L', ny)}
-        ctx = small_ctx(r) if r.random() < 0.2 else None
+        ctx = self.pick_ctx() if r.random() < 0.2 else None
         body = self.stmts(scope, 3, r.randint(4, 9))
         body.append(Node('return', self.ret_value(scope)))
         main = Func('main', ['x', 'y', 'n', 'xs', 'ys'], ctx, body)
